@@ -465,7 +465,7 @@ func ruleR129(c *Ctx) {
 		for _, arms := range typeDispatches(p, f, isITrace) {
 			for _, a := range arms {
 				// does the arm leave the relay loop (labelled break, return true, or plain return in a helper)?
-				leaves := false
+				leaves, plainReturn, answers := false, false, false
 				for _, st := range a.Body {
 					inspectNoLit(st, func(m ast.Node) bool {
 						switch x := m.(type) {
@@ -479,9 +479,20 @@ func ruleR129(c *Ctx) {
 									leaves = true
 								}
 							}
+							if len(x.Results) == 0 {
+								plainReturn = true
+							}
+						case *ast.SendStmt:
+							if isReplyChan(info(f).TypeOf(x.Chan)) {
+								answers = true
+							}
 						}
 						return true
 					})
+				}
+				// the arm answers the parent's token itself and returns (what followed the loop was moved into it)
+				if plainReturn && answers {
+					leaves = true
 				}
 				if !leaves {
 					continue
